@@ -751,6 +751,12 @@ func IsValidFilter(filter string, forPublish bool) bool {
 		return false
 	}
 
+	for _, level := range strings.Split(filter, "/") {
+		if len(level) > 1 && (strings.ContainsRune(level, '+') || strings.ContainsRune(level, '#')) {
+			return false // wildcards must occupy an entire level [MQTT-4.7.1-2] [MQTT-4.7.1-3]
+		}
+	}
+
 	prefix, hasNext := isolateParticle(filter, 0)
 	if !hasNext && strings.EqualFold(prefix, SharePrefix) {
 		return false // [MQTT-4.8.2-1]
@@ -758,12 +764,16 @@ func IsValidFilter(filter string, forPublish bool) bool {
 
 	if hasNext && strings.EqualFold(prefix, SharePrefix) {
 		group, hasNext := isolateParticle(filter, 1)
-		if !hasNext {
+		if !hasNext || len(group) == 0 {
 			return false // [MQTT-4.8.2-1]
 		}
 
 		if strings.ContainsRune(group, '+') || strings.ContainsRune(group, '#') {
 			return false // [MQTT-4.8.2-2]
+		}
+
+		if len(filter) == len(prefix)+len(group)+2 {
+			return false // the share name must be followed by a topic filter [MQTT-4.8.2-2]
 		}
 	}
 
